@@ -339,4 +339,11 @@ def payloadHist (cfg : Cfg) : UInt16 → List (UInt16 × Option Bytes) → List 
   | _, [] => []
   | d, (m, i) :: cs => let (o, d') := payload cfg m d i; o :: payloadHist cfg d' cs
 
+/-- a history of calls on one payloader whose exported fields `AddDONL` / `SkipAggregation` are set
+    by hand before each call: the options are read by `Payload` when it runs, the only state the
+    receiver carries from call to call is the DONL counter -/
+def payloadHistF : UInt16 → List (Cfg × UInt16 × Option Bytes) → List (List Bytes)
+  | _, [] => []
+  | d, (cfg, m, i) :: cs => let (o, d') := payload cfg m d i; o :: payloadHistF d' cs
+
 end Rtp.Model.H265
